@@ -142,16 +142,31 @@ def r08_2(run):
             st = stmt_of(c)
             par = getattr(c, "_parent", None)
             E = norm(c.args[0]) if c.args else "?"
+            def _reaches_finalize(nm):
+                if nm is None:
+                    return False
+                if nm in fin_colls:
+                    return True
+                # or wrapped: tensor_refs = WeakRefIterable(unique_arrs)
+                for n in own_nodes(fi.node):
+                    if isinstance(n, ast.Assign) and isinstance(n.value, ast.Call) and n.value.args \
+                            and isinstance(n.value.args[0], ast.Name) and n.value.args[0].id == nm \
+                            and assigned_name(n) in fin_colls:
+                        return True
+                return False
+
+            if isinstance(par, ast.Call) and isinstance(par.func, ast.Attribute) and par.func.attr == "append" and isinstance(par.func.value, ast.Name) \
+                    and par.args and par.args[0] is c:
+                # coll.append(lock_arr_writeability(E)): the lock's result goes straight into the collection
+                nm = par.func.value.id
+                ok = _reaches_finalize(nm)
+                run.ob("R08.2", loc(fi, c), fi.short, f"lock of {E} appended to {nm}", ok,
+                       "collection reaches finalize(..., release_writeability_lock_on_op, coll)" if ok else
+                       "the locked arrays are not registered with the op's finalizer: they are never unlocked")
+                continue
             if isinstance(par, (ast.GeneratorExp, ast.ListComp)):
                 nm = assigned_name(st)
-                ok = nm is not None and nm in fin_colls
-                # or wrapped: tensor_refs = WeakRefIterable(unique_arrs)
-                if not ok and nm is not None:
-                    for n in own_nodes(fi.node):
-                        if isinstance(n, ast.Assign) and isinstance(n.value, ast.Call) and n.value.args \
-                                and isinstance(n.value.args[0], ast.Name) and n.value.args[0].id == nm \
-                                and assigned_name(n) in fin_colls:
-                            ok = True
+                ok = _reaches_finalize(nm)
                 run.ob("R08.2", loc(fi, c), fi.short, f"locks of generator over {norm(par.generators[0].iter)[:50]} collected into {nm}",
                        ok, "collection reaches finalize(..., release_writeability_lock_on_op, coll)" if ok else
                        "the locked arrays are not registered with the op's finalizer: they are never unlocked")
